@@ -41,7 +41,6 @@ static void g711_all (int alaw)
 		{	int v = i - 32768, neg = v < 0, mag = abs (v) >> sh ; unsigned ref = alaw ? ref_alaw_enc13 (neg, mag) : ref_ulaw_enc14 (neg, mag), got = m.d [i] ; int ok = got == ref ;
 			/* float/double entries round to the codec's input grid instead of truncating: exact on the grid, within one grid step elsewhere */
 			if (!ok && t >= T_FLOAT && (abs (v) & ((alaw ? 16 : 4) - 1))) { unsigned up = alaw ? ref_alaw_enc13 (neg, mag + 2) : ref_ulaw_enc14 (neg, mag + 1) ; ok = got == up ; }
-			if (!ok && v == 0) ok = (alaw ? ref_alaw_dec (got) : ref_ulaw_dec (got)) == (alaw ? ref_alaw_dec (ref) : ref_ulaw_dec (ref)) ;
 			vh_stat ("g711_encodes_checked", 1) ;
 			if (!ok) { bad++ ; vh_viol (vh_key ("C20|g711-encode|%s|%s", nm, vh_tname [t]), "input %d written as %s is stored as 0x%02x, G.711 gives 0x%02x", v, vh_tname [t], got, ref) ; }
 			/* decode after encode is the quantiser, encode after decode the identity (up to the two mu-law zero codes) */
